@@ -3,13 +3,14 @@
 
    Layer 1, [svg_doc]: the ABSTRACT document, computed as the code does: the styled
    runs of anstream's WinconBytes (Model/Wincon.extract_next on a fresh state), the
-   INVERT pre-pass against the configured default colours, [split_lines] (with the
-   repair: a CR that ended up in the previous, differently styled fragment is
-   dropped too), [color_name], [rgb_value] over Model/Lossy.color_to_rgb,
+   INVERT pre-pass against the configured default colours, [split_lines] (as
+   repaired: when the text before a newline is empty, a CR that ended up in the
+   previous, differently styled fragment is dropped), [color_name], [rgb_value] over Model/Lossy.color_to_rgb,
    [color_styles] (a BTreeMap keyed by class name: sorted, no duplicate key),
    [effects_in_use], the canvas height.
 
-   Layer 2, [svg_print]: the textual template with html_escape::encode_text.
+   Layer 2, [svg_print]: the textual template with html_escape::encode_text (and, in
+   foreground spans, a carriage return written as the reference &#13;).
 
    Texts are lists of Unicode code points (a Rust String is its sequence of chars;
    everything the code does byte-wise -- '\n', '\r', '&', '<', '>' -- concerns ASCII
@@ -98,8 +99,8 @@ Fixpoint svg_run_loop (style : sstyle) (next cur : list N)
   | [] => (lines, current_line ++ [(style, cur)])                 (* current_line.push((style, next)) *)
   | c :: r =>
       if c =? 10 then
+        let cl := if svg_is_nil cur then svg_strip_last current_line else current_line in    (* `if current.is_empty()` *)
         let current := svg_strip_cr cur in
-        let cl := if svg_is_nil current then svg_strip_last current_line else current_line in
         svg_run_loop style r [] [] (lines ++ [cl ++ [(style, current)]])
       else svg_run_loop style r (cur ++ [c]) current_line lines
   end.
@@ -283,6 +284,12 @@ Fixpoint svg_encode_text (t : list N) : list N :=
       ++ svg_encode_text r
   end.
 
+(* str::replace('\r', "&#13;") *)
+Definition svg_replace_cr (t : list N) : list N := flat_map (fun c => if c =? 13 then L"&#13;" else [c]) t.
+
+(* the fragment as write_fg_span writes it *)
+Definition svg_encode_fg (t : list N) : list N := svg_replace_cr (svg_encode_text t).
+
 (* ` name="value"` *)
 Definition svg_attr (a : list N * list N) : list N := [32] ++ fst a ++ [61; 34] ++ snd a ++ [34].
 (* `<name atts>content</name>` *)
@@ -304,7 +311,7 @@ Definition svg_class_attr (classes : list (list N)) : list (list N * list N) :=
 
 (* write_fg_span *)
 Definition svg_print_fg_span (sp : svg_span) : list N :=
-  svg_elem (L"tspan") (svg_class_attr (fst sp)) (svg_encode_text (snd sp)).
+  svg_elem (L"tspan") (svg_class_attr (fst sp)) (svg_encode_fg (snd sp)).
 
 (* write_bg_span: the fill repeats the width of the ESCAPED fragment *)
 Definition svg_print_bg_span (wf : list N -> N) (sp : svg_span) : list N :=
